@@ -13,7 +13,7 @@ RULE = ('the real sproc.appmonitor._run_sync loop (its ChildrenWatch / ExistingD
         'unset; a count-only change keeps the configured policy), monitors created and deleted, the connection of the monitor '
         'dropping and coming back (SUSPENDED/CONNECTED, nothing reconfigured), and the REST boundary failing with each handled class (NotFound, BadRequest, '
         'Validation) or an unhandled one, for creates and deletes, connections refused before anything is processed, and a reply '
-        'lost after the request was processed. requests.post is replaced by a stand-in for the cell API that records what the '
+        'lost after the request was processed, and instances of other applications exiting on their own while a request is in flight (the /scheduled watch fires in the middle of an evaluation; the evaluation is judged against the listing it started with), and an evaluation that runs between two statements of the /scheduled watch callback (LINE event local to the callback; the update concerns an application nobody monitors, so old and new listing agree on every monitored one). requests.post is replaced by a stand-in for the cell API that records what the '
         'server processes and dispatches to masterapi.create_apps / delete_apps; the real restclient (status handling, retry '
         'loop) runs above it. Oracle per evaluation and monitor from the recorded calls: '
         'count requested <= target - current; <= floor of an independent token bucket (2*target/h, cap 2*target, reset on '
@@ -28,6 +28,9 @@ ASSUMPTIONS = ['in-memory ZooKeeper fake; requests.post replaced (HTTP boundary;
 BUDGET = {'quick': (40, 30.0), 'thorough': (800, 240.0)}
 REQUIRED_REACH = {'*': ['evaluations', 'creates_ok', 'scale_down_calls', 'rate_limited', 'handled_failures', 'suspended_evaluations',
                         'monitors_deleted', 'converged_histories']}
+
+
+TOOL = 4
 
 
 class _Stop(BaseException):
@@ -52,6 +55,10 @@ def run(ctx):
     import types
     real_sleep, real_post, real_reeval = time.sleep, requests.post, appmonitor.reevaluate
     real_rc_time, real_auth = restclient.time, restclient._krb_auth         # pylint: disable=protected-access
+    import sys
+    mon = sys.monitoring
+    watch_code = [c for c in appmonitor._run_sync.__code__.co_consts          # pylint: disable=protected-access
+                  if getattr(c, 'co_name', None) == '_scheduled_watch'][0]
     for idx, rng in ctx.cases():
         clock = env.VClock(tick=0.0)
         clock.install()
@@ -76,12 +83,15 @@ def run(ctx):
         fail_delete = [0]
         refuse = [0]          # the next N connections are refused before anything is processed
         drop_reply = [False]  # the next processed create loses its reply
+        die_mid = [False]     # instances of other applications exit while the next request is in flight
         n_eval = [0]
         total = rng.randint(25, 70)
         kinds = []
         flags = dict(handled=False, scaledown=False, limited=False)
         quiet_from = total          # evaluations >= this index: no faults, budget refilled
         violated = [False]
+        race = dict(armed=False, busy=False, n=0, at=0)
+        last_args = []
 
         intent = {}       # name -> the scale policy the operator configured last (a count-only update keeps it)
 
@@ -136,6 +146,19 @@ def run(ctx):
             payload = json if json is not None else data
             path = url[len('http://api'):]
             drop = drop_reply[0]
+            if die_mid[0]:
+                # while this request is in flight, instances of OTHER applications exit on their own (the /scheduled
+                # watch of the monitor fires in the middle of its evaluation, which works on the listing it started with)
+                die_mid[0] = False
+                mine = path[len('/instance/'):].partition('?')[0] if not path.startswith('/instance/_bulk') else \
+                    (payload['instances'][0].rpartition('#')[0] if payload['instances'] else None)
+                for other in apps:
+                    cur_ = scheduled_of(other)
+                    if other != mine and cur_ and rng.random() < 0.8:
+                        k_ = rng.randint(1, len(cur_))
+                        gone = cur_[:k_] if rng.random() < 0.5 else (cur_[-k_:] if rng.random() < 0.5 else rng.sample(cur_, k_))
+                        masterapi.delete_apps(admin, gone, 'test')
+                        ctx.count('instances_exited_during_a_request')
             if refuse[0] > 0:
                 refuse[0] -= 1
                 ctx.count('connections_refused_before_processing')
@@ -179,6 +202,7 @@ def run(ctx):
             ctx.violation(mech, msg, witness=witness, case=dict(history=idx, evaluation=n_eval[0], kinds=kinds[-12:]))
 
         def reevaluate(api_url, alert_f, state, zkclient, last_waited):
+            last_args[:] = [(api_url, alert_f, state, zkclient, last_waited)]
             now = clock.peek()
             before = {n: scheduled_of(n) for n in set(apps) | set(ref)}
             del calls[:]
@@ -310,6 +334,7 @@ def run(ctx):
                     fail_delete[0] = 0
                     refuse[0] = 0
                     drop_reply[0] = False
+                    die_mid[0] = False
                     clock.advance(7200.0)
                 else:
                     clock.advance(1.0)
@@ -325,7 +350,7 @@ def run(ctx):
                 return
             clock.advance(rng.choice([1, 1, 1, 1, 5, 30, 120, 300, 301, 1800, 3600, 7200]) if rng.random() < 0.35 else 1.0)
             for _ in range(rng.choice([0, 1, 1, 2])):
-                op = rng.choice(['die', 'die', 'die', 'count', 'count', 'policy', 'delmon', 'newmon', 'fail', 'fail', 'faildel', 'flap', 'refuse', 'drop'])
+                op = rng.choice(['die', 'die', 'die', 'count', 'count', 'policy', 'delmon', 'newmon', 'fail', 'fail', 'faildel', 'flap', 'refuse', 'drop', 'midreq', 'midreq', 'race', 'race'])
                 name = rng.choice(apps)
                 if op == 'die':
                     cur = scheduled_of(name)
@@ -347,10 +372,50 @@ def run(ctx):
                     refuse[0] = rng.choice([1, 2, 4, 7])
                 elif op == 'drop':
                     drop_reply[0] = True
+                elif op == 'midreq':
+                    die_mid[0] = True
+                elif op == 'race' and last_args:
+                    raced_listing_update()
                 elif op == 'flap':
                     # the monitor's connection drops and comes back: no monitor was reconfigured
                     zk.flap()
                     ctx.count('connection_flaps')
+
+        def line_cb(_code, _line):
+            # the main loop gets the CPU between two statements of the /scheduled watch callback (which runs on
+            # kazoo's thread) and evaluates: one real evaluation, judged like any other
+            if not race['armed'] or race['busy'] or not last_args:
+                return
+            race['n'] += 1
+            if race['n'] != race['at']:
+                return
+            race['busy'] = True
+            srv.sync_delivery = False        # kazoo delivers the next notification after this callback returned
+            try:
+                ctx.count('evaluations_inside_a_listing_update')
+                args = last_args[0]
+                reevaluate(*args)
+                n_eval[0] -= 1               # (the loop's own evaluations drive the phases of the history)
+                last_args[:] = [args]
+            finally:
+                race['busy'] = False
+
+        def raced_listing_update():
+            """An instance of an application nobody monitors appears or goes: every monitored application has the
+            same instances before and after, so the evaluation that runs while the new listing is being taken
+            over is judged against the one listing both views agree on."""
+            noise = rng.choice(['aaa.noise', 'proid.zz', 'zzz.noise'])
+            cur_ = scheduled_of(noise)
+            race.update(armed=True, n=0, at=rng.randint(1, 7))
+            try:
+                if cur_ and rng.random() < 0.4:
+                    masterapi.delete_apps(admin, cur_[:1], 'test')
+                else:
+                    masterapi.create_apps(admin, noise, {'memory': '1G'}, 1, 'test')
+            finally:
+                race['armed'] = False
+                srv.sync_delivery = True
+                srv.deliver()
 
         quiet_from = total
         try:
@@ -365,10 +430,17 @@ def run(ctx):
             restclient.time = types.SimpleNamespace(time=time.time, sleep=clock.advance)
             restclient._krb_auth = lambda: None        # pylint: disable=protected-access
             appmonitor.reevaluate = reevaluate
+            mon.use_tool_id(TOOL, 'vf-c20')
+            mon.register_callback(TOOL, mon.events.LINE, line_cb)
+            mon.set_local_events(TOOL, watch_code, mon.events.LINE)
             try:
                 appmonitor._run_sync('http://api', alerts, False)     # pylint: disable=protected-access
             except _Stop:
                 pass
+            finally:
+                mon.set_local_events(TOOL, watch_code, 0)
+                mon.register_callback(TOOL, mon.events.LINE, None)
+                mon.free_tool_id(TOOL)
         finally:
             time.sleep, requests.post, appmonitor.reevaluate = real_sleep, real_post, real_reeval
             restclient.time, restclient._krb_auth = real_rc_time, real_auth      # pylint: disable=protected-access
